@@ -11,7 +11,7 @@ import sys
 import tempfile
 
 from . import common  # noqa: F401
-from ECAgent.Core import Model, Agent, Component, System
+from ECAgent.Core import Model, Agent, Component, System, Environment
 from ECAgent.Collectors import AgentCollector, FileCollector
 
 FOREVER = 999999
@@ -62,6 +62,17 @@ FKINDS = {
     "odd_none": lambda a: a[Val].v if a[Val].v % 2 == 0 else None,
     "none": lambda a: None,
 }
+def _total_shared():
+    """A composite function that keeps ONE dictionary, updates it in place and returns the same object every time."""
+    d = {}
+
+    def f(agents):
+        d["total"] = sum(a[Val].v for a in agents.values())
+        d["n"] = len(agents)
+        return d
+    return f
+
+
 COMPS = {
     "nofunc": None,
     "ret_none": lambda agents: None,
@@ -110,7 +121,8 @@ def _run(prog, tmp):
 
     def make_collectors():
         for a in prog["acs"]:
-            c = AgentCollector(m, FKINDS[a["fkind"]], COMPS[a["comp"]], a["incl"], id=a["name"], frequency=a["freq"],
+            comp = _total_shared() if a["comp"] == "total_shared" else COMPS[a["comp"]]
+            c = AgentCollector(m, FKINDS[a["fkind"]], comp, a["incl"], id=a["name"], frequency=a["freq"],
                                start=a["start"], end=_end(a["end"]))
             m.systems.add_system(c)
             acs[a["name"]] = c
@@ -123,6 +135,8 @@ def _run(prog, tmp):
     if prog.get("first") == "collectors":
         make_collectors()
         m.systems.add_system(pop)
+        if prog.get("replace_env"):
+            m.set_environment(Environment(m))       # the (still unpopulated) environment is replaced after the collectors were built
     else:
         m.systems.add_system(pop)
         make_collectors()
@@ -165,7 +179,7 @@ def random_program(rng, steps=8):
     for k in range(rng.randint(1, 3)):
         s, e, f = window()
         acs.append({"name": "c%d" % k, "start": s, "end": e, "freq": f, "fkind": rng.choice(sorted(FKINDS)),
-                    "comp": rng.choice(sorted(COMPS)), "incl": rng.random() < 0.4})
+                    "comp": rng.choice(sorted(COMPS) + ["total_shared", "total_shared"]), "incl": rng.random() < 0.4})
     fcs = []
     for k in range(rng.randint(1, 2)):
         s, e, f = window()
@@ -180,7 +194,7 @@ def random_program(rng, steps=8):
         if rng.random() < 0.3:
             ops.append(["between", popops(rng.randint(1, 2))])
         ops.append(["step", popops(rng.choice([0, 1, 1, 2, 3]))])
-    return {"acs": acs, "fcs": fcs, "first": rng.choice(["pop", "collectors"]), "ops": ops}
+    return {"acs": acs, "fcs": fcs, "first": rng.choice(["pop", "collectors"]), "replace_env": rng.random() < 0.4, "ops": ops}
 
 
 def sweep_programs():
@@ -191,7 +205,9 @@ def sweep_programs():
             for first in ("pop", "collectors"):
                 ops = [["step", [["join", "x"]]], ["step", [["join", "y"], ["touch", "x"]]], ["step", []], ["step", [["leave", "x"]]],
                        ["step", [["touch", "y"]]], ["step", [["touch", "y"], ["join", "x"]]], ["step", []], ["step", [["leave", "y"]]], ["step", []]]
-                out.append({"acs": [{"name": "c0", "start": 0, "end": FOREVER, "freq": 1, "fkind": "odd_none", "comp": "total", "incl": True},
+                out.append({"replace_env": wc % 2 == 1,
+                            "acs": [{"name": "c0", "start": 0, "end": FOREVER, "freq": 1, "fkind": "odd_none", "comp": "total", "incl": True},
+                                    {"name": "c2", "start": 0, "end": FOREVER, "freq": 1, "fkind": "none", "comp": "total_shared", "incl": False},
                                     {"name": "c1", "start": 1, "end": 6, "freq": 2, "fkind": "value", "comp": "nofunc", "incl": False}],
                             "fcs": [{"name": "f0", "start": 0, "end": FOREVER, "freq": 1, "wc": wc, "plan": k},
                                     {"name": "f1", "start": 2, "end": FOREVER, "freq": 2, "wc": wc, "plan": [0, 1, 1]}],
